@@ -173,18 +173,16 @@ type gor struct {
 	body  string
 }
 
+var dumpBuf = make([]byte, 1<<18)
+
 func dump() []gor {
-	buf := make([]byte, 1<<16)
-	for {
-		n := runtime.Stack(buf, true)
-		if n < len(buf) {
-			buf = buf[:n]
-			break
-		}
-		buf = make([]byte, 2*len(buf))
+	n := runtime.Stack(dumpBuf, true)
+	for n >= len(dumpBuf) {
+		dumpBuf = make([]byte, 2*len(dumpBuf))
+		n = runtime.Stack(dumpBuf, true)
 	}
 	var out []gor
-	for _, blk := range strings.Split(string(buf), "\n\n") {
+	for _, blk := range strings.Split(string(dumpBuf[:n]), "\n\n") {
 		blk = strings.TrimSpace(blk)
 		if !strings.HasPrefix(blk, "goroutine ") {
 			continue
@@ -203,19 +201,33 @@ func dump() []gor {
 	return out
 }
 
-// quiesce waits until every goroutine but the caller is parked.
+// parked reports whether a goroutine state (as printed by runtime.Stack) is one of the three ways a
+// goroutine of this harness can legitimately be at rest: waiting on a channel. Everything else counts
+// as still moving - "runnable", "running", "syscall", but also "preempted", "GC assist wait",
+// "GC assist marking", "copystack", "semacquire", "sync.Mutex.Lock": a goroutine delayed by the
+// garbage collector or by a momentarily held mutex is NOT at rest (treating those as parked let an
+// op be issued while HandleBlock was still between its Started send and its first cancel check).
+func parked(state string) bool {
+	switch state {
+	case "chan receive", "chan send", "select":
+		return true
+	}
+	return false
+}
+
+// quiesce waits until every goroutine but the caller is parked on a channel, seen in two
+// consecutive stop-the-world dumps with a yield in between.
 func quiesce() bool {
 	okRuns := 0
-	for i := 0; i < 200000; i++ {
+	for i := 0; i < 400000; i++ {
 		runtime.Gosched()
-		busy := 0
+		moving := 0
 		for _, g := range dump() {
-			switch g.state {
-			case "running", "runnable", "syscall":
-				busy++
+			if !parked(g.state) {
+				moving++
 			}
 		}
-		if busy <= 1 { // the caller itself
+		if moving <= 1 { // the caller itself
 			okRuns++
 			if okRuns >= 2 {
 				return true
